@@ -528,7 +528,7 @@ fn text_char(t: &mut Tape, ascii_only: bool) -> Vec<u8> {
         // byte searches tend to confuse with them
         2 => vec![*t.pick(&[b'\t', b'\n', 0u8, 0x7f, 0x0b, 0x0c, 0x0c, 0x0e, 0x1f, 0x21, 0x01, 0x1b])],
         _ => {
-            let c = *t.pick(&['\u{e9}', '\u{df}', '\u{20ac}', '\u{4e2d}', '\u{1f600}', '\u{10348}', '\u{7ff}', '\u{800}', '\u{ffff}', '\u{10d}', '\u{10a}', '\u{120}', '\u{200d}', '\u{2020}', '\u{ff0d}', '\u{3000}', '\u{100}', '\u{a0d}']);
+            let c = *t.pick(&['\u{e9}', '\u{df}', '\u{20ac}', '\u{4e2d}', '\u{1f600}', '\u{10348}', '\u{7ff}', '\u{800}', '\u{ffff}', '\u{10d}', '\u{10a}', '\u{120}', '\u{200d}', '\u{2020}', '\u{ff0d}', '\u{3000}', '\u{100}', '\u{a0d}', '\u{200b}', '\u{feff}', '\u{202e}', '\u{2066}', '\u{2069}', '\u{ad}', '\u{200e}', '\u{2060}']);
             c.to_string().into_bytes()
         }
     }
@@ -797,7 +797,7 @@ pub fn gen_valid_line(t: &mut Tape, ascii_only: bool) -> Vec<u8> {
 }
 
 pub const BAD_PORTS: &[&str] = &[
-    "+1", "-1", "+0", "-0", "+65535", "00", "01", "080", "0000", "65536", "99999", "100000", "655350", "", "x", "8o", "1x", "x1", "1.0",
+    "+1", "-1", "+0", "-0", "-00", "-000", "+65535", "0_0", "1_000", "0b1", "0o7", "४", "۴", "00", "01", "080", "0000", "65536", "99999", "100000", "655350", "", "x", "8o", "1x", "x1", "1.0",
     "0x50", "1e3", "123456789012345678901", "\u{0661}", "1\t", "\t1", "1\n", "\u{ff11}", "٣", "4294967297", "18446744073709551617",
 ];
 pub const BAD_V4: &[&str] = &[
@@ -1311,14 +1311,16 @@ pub fn gen_addr_block(t: &mut Tape, fam: u8) -> Vec<u8> {
             _ => {}
         }
     }
+    // one IPv4 / IPv6 block in sixteen carries real addresses and no ports (both zero: ICMP, ESP and the like)
+    let portless = (fam == 1 || fam == 2) && t.chance(1, 16);
     match fam {
         0 => vec![],
         1 => {
             let (a4, b4) = gen_v4_pair(t);
             let mut b = a4.to_vec();
             b.extend_from_slice(&b4);
-            b.extend_from_slice(&gen_port(t).to_be_bytes());
-            b.extend_from_slice(&gen_port(t).to_be_bytes());
+            b.extend_from_slice(&(if portless { 0 } else { gen_port(t) }).to_be_bytes());
+            b.extend_from_slice(&(if portless { 0 } else { gen_port(t) }).to_be_bytes());
             b
         }
         2 => {
@@ -1329,14 +1331,22 @@ pub fn gen_addr_block(t: &mut Tape, fam: u8) -> Vec<u8> {
                     b.extend_from_slice(&v.to_be_bytes());
                 }
             }
-            b.extend_from_slice(&gen_port(t).to_be_bytes());
-            b.extend_from_slice(&gen_port(t).to_be_bytes());
+            b.extend_from_slice(&(if portless { 0 } else { gen_port(t) }).to_be_bytes());
+            b.extend_from_slice(&(if portless { 0 } else { gen_port(t) }).to_be_bytes());
             b
         }
         _ => {
             let mut b = Vec::new();
             for _ in 0..2 {
-                let mut path = match t.weighted(&[2, 4, 2, 1, 1, 1, 2]) {
+                let mut path = match t.weighted(&[2, 4, 2, 1, 1, 1, 2, 2]) {
+                    // a pathname, its NUL terminator, and stale bytes behind it (what a C sender leaves in sun_path)
+                    7 => {
+                        let mut p = format!("/run/app-{}.sock", t.below(100)).into_bytes();
+                        p.push(0);
+                        let rest = 108 - p.len();
+                        p.extend(fill(t.u32() | 1, rest).into_iter().map(|b| if b == 0 { 0x55 } else { b }));
+                        p
+                    }
                     // abstract names: a leading NUL, then a short name padded with zeros / 107 non-zero bytes (the name fills
                     // sun_path: no terminator anywhere); a path that fills all 108 bytes without terminator
                     3 => {
@@ -1541,6 +1551,28 @@ pub fn gen_tlv_list(t: &mut Tape, room: usize) -> Vec<(u8, Vec<u8>)> {
             }
         }
     }
+    // alignment padding as senders write it: NOOP entries (type 4), zero-filled or not, in front of the list or as a run of two
+    // or three at its end
+    if t.chance(1, 10) {
+        let noop = |t: &mut Tape| -> (u8, Vec<u8>) {
+            let n = *t.pick(&[0usize, 1, 1, 2, 4, 5]);
+            (0x04, if t.chance(3, 4) { vec![0u8; n] } else { t.bytes(n) })
+        };
+        let k = 1 + t.below(3) as usize;
+        let front = t.chance(1, 3);
+        for _ in 0..k {
+            let (kind, v) = noop(t);
+            if used + 3 + v.len() > room {
+                break;
+            }
+            used += 3 + v.len();
+            if front {
+                out.insert(0, (kind, v));
+            } else {
+                out.push((kind, v));
+            }
+        }
+    }
     out
 }
 
@@ -1687,10 +1719,23 @@ pub fn gen_v2_header(t: &mut Tape) -> V2Gen {
     } else if t.chance(1, 30) {
         // padded with zero bytes to a size a C sender would use: sizeof(union proxy_addr) = 216, the next family's block,
         // a power of two (the zeros read as empty type-0 TLVs, or as one short item at the end)
-        let target = *t.pick(&[216usize, 216, 36, 232, 256, 512, 128, 64]);
+        // (0x0C00, 0x2400 and 0xD800 are the family block sizes 12, 36 and 216 with their bytes exchanged)
+        let target = *t.pick(&[216usize, 216, 36, 232, 256, 512, 128, 64, 0x0C00, 0x2400, 0xD800]);
         if payload.len() < target {
             payload.resize(target, 0);
         }
+    }
+    // one header in sixty repeats itself: right behind the address block (behind the fixed part for the unspecified family)
+    // stands a copy of its own 16-byte fixed part (a write that was retried)
+    if t.chance(1, 60) && payload.len() + 16 <= 65535 {
+        let at = NEED[fam as usize].min(payload.len());
+        let mut fixed = SIG.to_vec();
+        fixed.push(0x20 | cmd);
+        fixed.push((fam << 4) | proto);
+        fixed.extend_from_slice(&((payload.len() + 16) as u16).to_be_bytes());
+        let tail = payload.split_off(at);
+        payload.extend_from_slice(&fixed);
+        payload.extend(tail);
     }
     let mut bytes = SIG.to_vec();
     bytes.push(0x20 | cmd);
@@ -1703,7 +1748,41 @@ pub fn gen_v2_header(t: &mut Tape) -> V2Gen {
 /// Near-miss v2 inputs (G-V2MUT).
 pub fn gen_v2_mutant(t: &mut Tape) -> (Vec<u8>, &'static str) {
     let mut h = gen_v2_header(t).bytes;
-    match t.below(15) {
+    match t.below(16) {
+        15 => {
+            // the signature (or the whole header) after a text-mode translation: every CR LF written as LF, every LF as CR LF,
+            // all CRs / all LFs / the NUL dropped
+            let span = if t.coin() { 12.min(h.len()) } else { h.len().min(600) };
+            let (head, tail) = h.split_at(span);
+            let mut out: Vec<u8> = Vec::with_capacity(h.len() + 16);
+            match t.below(5) {
+                0 => {
+                    let mut i = 0;
+                    while i < head.len() {
+                        if head[i] == b'\r' && i + 1 < head.len() && head[i + 1] == b'\n' {
+                            out.push(b'\n');
+                            i += 2;
+                        } else {
+                            out.push(head[i]);
+                            i += 1;
+                        }
+                    }
+                }
+                1 => {
+                    for (i, &b) in head.iter().enumerate() {
+                        if b == b'\n' && (i == 0 || head[i - 1] != b'\r') {
+                            out.push(b'\r');
+                        }
+                        out.push(b);
+                    }
+                }
+                2 => out.extend(head.iter().filter(|&&b| b != b'\r')),
+                3 => out.extend(head.iter().filter(|&&b| b != b'\n')),
+                _ => out.extend(head.iter().filter(|&&b| b != 0)),
+            }
+            out.extend_from_slice(tail);
+            (out, "text-mode-translation")
+        }
         14 => {
             // a valid fixed part announcing more than what follows it, and what follows is text: a complete v1 line (a chain
             // of proxies speaking both versions), or the start of one
